@@ -3,12 +3,12 @@ module verifh
 go 1.25.0
 
 require (
+	github.com/dlclark/regexp2/v2 v2.5.2
 	github.com/dop251/goja v0.0.0
 	pgregory.net/rapid v1.3.0
 )
 
 require (
-	github.com/dlclark/regexp2/v2 v2.5.2 // indirect
 	github.com/go-sourcemap/sourcemap v2.1.3+incompatible // indirect
 	github.com/google/pprof v0.0.0-20230207041349-798e818bf904 // indirect
 	golang.org/x/text v0.3.8 // indirect
